@@ -4286,6 +4286,18 @@ fn my_ip_interfaces(with_loopback: bool) -> Vec<Interface> {
 }
 
 fn my_ip_interfaces_inner(with_loopback: bool, with_apple_p2p: bool) -> Vec<Interface> {
+    #[cfg(feature = "verif-hooks")]
+    if let Some(table) = crate::verif::interfaces() {
+        return table
+            .into_iter()
+            .filter(|i| {
+                i.is_oper_up()
+                    && !i.is_p2p()
+                    && (!i.is_loopback() || with_loopback)
+                    && (with_apple_p2p || !is_apple_p2p_by_name(&i.name))
+            })
+            .collect();
+    }
     if_addrs::get_if_addrs()
         .unwrap_or_default()
         .into_iter()
